@@ -7,9 +7,11 @@ ID = 'C13'
 RULE = ('one record per call of keypair / signature / signature_extended / extended_to_public / exchange; outputs must equal the RFC 8032 transcription '
         '(and X25519 of the hashed secret with the birationally mapped key for exchange); every message length 0..=300 (one seed in quick, several in thorough), '
         'sampled 1-64 KiB, structured seeds, extended secrets derived from seeds and arbitrary clamped ones; distinct = (op, seed class, message length)')
-ASSUMPTIONS = ['Python-int RFC 8032 model pinned by RFC 8032 7.1 vectors; hashlib SHA-512']
+ASSUMPTIONS = ['bulk phase: the force-32bits backend serves as a second implementation for locating rare disagreements; a disagreement is reported only when the Python model shows the default build wrong, and sampled outputs are always checked against the Python model', 'Python-int RFC 8032 model pinned by RFC 8032 7.1 vectors; hashlib SHA-512']
 FLOORS = {'evaluations': 12000, 'distinct': 10000}
 THOROUGH_ROUNDS = 4   # thorough tier: generator passes with derived seeds (runner.gen_rounds)
+# bulk phase (cxv/bulk.py): keypair + signature + verification of it on derived seeds / messages of 0..63 bytes
+BULK = {'quick': [('ed_sign', 1 << 14, 512)], 'thorough': [('ed_sign', 1 << 22, 4096)]}
 P = o.P
 
 
